@@ -510,9 +510,22 @@ class Gen:
                     self.dropped_loop_sections.append('%s: %s has %d call(s) of %s, contract names call %d' % (rel, qual, len(calls), sec['callee'], sec['k']))
                     continue
                 c = body_open + calls[sec['k'] - 1]
-                # the statement holding the call starts on the call's own line (rustfmt layout); anything else fails to
-                # parse and is reported as tool trouble, never as a violation
-                off = text.rfind('\n', 0, c) + 1
+                # the statement holding the call: walk back to the nearest `;`, `{` or `}` that is not inside brackets
+                # the call sits in (method chains may span lines); ghost code goes right behind it.  A position that
+                # is not a statement boundary (a match arm, a struct literal) fails to parse: tool trouble, never a violation
+                depth, q = 0, c - 1
+                while q > body_open:
+                    ch = masked[q]
+                    if ch in ')]':
+                        depth += 1
+                    elif ch in '([':
+                        if depth > 0:
+                            depth -= 1
+                        # else: the call is an argument of an enclosing call - keep walking back
+                    elif ch in ';{}' and depth == 0:
+                        break
+                    q -= 1
+                off = q + 1
             elif kind == 'tail':
                 off = rsx.fn_tail_offset(text)
                 if off is None:
